@@ -125,12 +125,15 @@ def V2_claimable_implies_rewind(ctx):
            f'functions accessing dependent_state: {sorted(got)}; expected {sorted(expected)}',
            what='claimability is decided under DS[x]; a new accessor must be triaged against the cursor-rewind rule')
     n_sites = 0
+    rewinders = set()
     for name in sorted(fns):
         if name.endswith('::new'):
             continue
         f = ctx.fn(facts.by[name])
         bad, early = [], []
         for p in feasible(f.paths()):
+            if any(e.kind == 'call' and callee_matches(e.d['callee'], '::fetch_min') and mentions_field(e.d['args'][0], 'TxDependency.index') for e in p.events):
+                rewinders |= facts.owners(name)
             for h in track_ds(p):
                 n_sites += len(h['fetch_min'])
                 claimable = h['onboard'] is True and h['dep'] == 'None'
@@ -157,9 +160,9 @@ def V2_claimable_implies_rewind(ctx):
                what='a cursor rewind issued before DS[x] is taken can be consumed by a claimer that still sees x blocked')
     ctx.count('V2.fetch_min-events', n_sites)
     # anchor: the 5 fetch_min sites
-    sites = facts.callers_of(lambda c: c.endswith('::fetch_min'))
-    k = [(b['fn'], t['line']) for b, bl, t in sites if not facts.is_test(b['fn'], b) and 'tx_dependency' in b['fn']]
-    ctx.ob('V2', 'tx_dependency::TxDependency', 'anchor:fetch_min-sites', len(k) >= 5, f'{len(k)} fetch_min sites in tx_dependency.rs (5 confirmed by reading)')
+    need = {'add', 'remove', 'commit', 'key_tx'}
+    ctx.ob('V2', 'tx_dependency::TxDependency', 'anchor:fetch_min-sites', need <= rewinders,
+           f'functions on whose paths the execution cursor is rewound: {sorted(rewinders)} (the 5 sites confirmed by reading are in {sorted(need)}; a helper they share is analysed through)')
 
 
 def V1_tables(ctx):
